@@ -456,7 +456,7 @@ fn main() {
     out.text.push_str(&tail);
 
     // line maps
-    let mut ob_lines: BTreeMap<usize, (usize, usize)> = BTreeMap::new();
+    let mut ob_lines: BTreeMap<usize, Vec<(usize, usize)>> = BTreeMap::new();
     {
         let t = &out.text;
         let mut pos = 0;
@@ -465,7 +465,7 @@ fn main() {
             let close = s + t[s..].find("*/").unwrap();
             let idx: usize = t[s + 6..close].parse().unwrap();
             let e = close + t[close..].find("/*@eo*/").unwrap_or(0);
-            ob_lines.insert(idx, (line_of(t, s), line_of(t, e)));
+            ob_lines.entry(idx).or_default().push((line_of(t, s), line_of(t, e)));
             pos = close;
         }
     }
@@ -513,8 +513,10 @@ fn main() {
         .obligations
         .iter()
         .map(|o| {
-            let (a, b) = ob_lines.get(&o.idx).cloned().unwrap_or((0, 0));
-            serde_json::json!({"idx": o.idx, "id": o.id, "props": o.props, "kind": o.kind, "func": o.func, "file": o.src_file, "text": o.text, "out_line": a, "out_end_line": b})
+            let sites = ob_lines.get(&o.idx).cloned().unwrap_or_default();
+            let (a, b) = sites.first().cloned().unwrap_or((0, 0));
+            let sj: Vec<serde_json::Value> = sites.iter().map(|(x, y)| serde_json::json!([x, y])).collect();
+            serde_json::json!({"idx": o.idx, "id": o.id, "props": o.props, "kind": o.kind, "func": o.func, "file": o.src_file, "text": o.text, "out_line": a, "out_end_line": b, "sites": sj})
         })
         .collect();
     let rewrites: Vec<serde_json::Value> = ctx
